@@ -135,6 +135,8 @@ def flo_script(case, acts):
         L.append("    frame %s%s" % (f["name"], (" in " + f["over"]) if f.get("over") else ""))
         for g in f.get("guard", []):
             L.append("      let me if %s" % flo_guard(g))
+        for nd in f.get("gneeds", []):
+            L.append("      let me if %s" % flo_need(nd))
         for ctx in ("enter", "recur", "exit"):
             if f[ctx]:
                 L.append("      %s" % ctx)
@@ -178,6 +180,7 @@ def drv_line(case):
     out += drv_list(case["inits"], lambda init: drv_list(init, lambda kv: [kv[0], drv_val(kv[1])]))
     out += drv_list(case["frames"], lambda f: [f["name"], ("=" + f["over"]) if f.get("over") else "-"]
                     + drv_list(f.get("guard", []), lambda g: ["1" if g[0] else "0", str(g[1]), g[2]])
+                    + drv_list(f.get("gneeds", []), drv_need)
                     + drv_list(f["enter"], drv_write)
                     + drv_list(f["recur"], drv_write) + drv_list(f["exit"], drv_write)
                     + drv_list(f["trans"], lambda t: [t["far"]] + drv_list(t["needs"], drv_need)))
@@ -203,6 +206,9 @@ class Spec:
         self.snap = {}         # (share, key) -> copy of the data at the last reset   (is changed)
         # every marker need of the program with its home frame
         self.needs = [(fi, nd) for fi, f in enumerate(case["frames"]) for t in f["trans"] for nd in t["needs"]]
+        # marker conditions used as entry needs (`let me if .s is updated in frame X`): they name frames like any
+        # other marker need, but guard no transition, so nothing is ever reset "on a taken transition" for them
+        self.needs += [(fi, nd) for fi, f in enumerate(case["frames"]) for nd in f.get("gneeds", [])]
 
     def named_frame(self, home, nd):
         cl = nd["cl"]
@@ -258,7 +264,7 @@ class Spec:
                 r = not r
             if not r:
                 return False
-        return True
+        return all(self.holds(fi, nd) for nd in self.case["frames"][fi].get("gneeds", []))
 
     def outline(self, a):
         """the over frames from the top down to the frame, then its primary (first declared) under frames"""
@@ -300,6 +306,10 @@ def bad_refs(case):
     for fi, f in enumerate(case["frames"]):
         if f.get("over") and f["over"] not in names:
             return True
+        for nd in f.get("gneeds", []):
+            cl = nd["cl"]
+            if cl.startswith("=") and cl[1:] != "me" and cl[1:] not in names:
+                return True
         for t in f["trans"]:
             if t["far"] == "next":
                 if fi + 1 >= len(names):
@@ -445,7 +455,22 @@ def gen_case(rng, tier):
             for _ in range(rng.choice([1, 1, 2])):
                 gs = rng.randrange(nsh)
                 guard.append([1 if rng.random() < 0.3 else 0, gs, rng.choice(fields[gs])])
-        frames.append({"name": nm, "guard": guard, "enter": gen_writes(0.3), "recur": gen_writes(0.15, 1),
+        gneeds = []
+        if fi > 0 and rng.random() < 0.3:
+            # marker conditions as entry needs of the frame: armed only by entries of the frame they name
+            gneeds = [gen_need(fi) for _ in range(rng.choice([1, 1, 2]))]
+            earlier = [(names[hj], nd) for hj, fr in enumerate(frames) for t in fr["trans"] for nd in t["needs"]]
+            if earlier and rng.random() < 0.5:
+                # share the Mark with a transition need of an earlier frame (same share, mark key), so that the
+                # transition's taken-resets and the entry need's frame both act on one Mark
+                hn, other = rng.choice(earlier)
+                g = gneeds[0]
+                g["s"], g["by"] = other["s"], other["by"]
+                ocl = other["cl"]
+                g["cl"] = "=" + (hn if ocl in ("-", "bare", "me", "=me") else ocl[1:])
+                if rng.random() < 0.5:
+                    g["k"] = other["k"]
+        frames.append({"name": nm, "guard": guard, "gneeds": gneeds, "enter": gen_writes(0.3), "recur": gen_writes(0.15, 1),
                        "exit": gen_writes(0.2, 1), "trans": trans})
     if nfr > 1 and rng.random() < 0.5:
         # nest the frames: the marks of an over frame are armed on entry to IT, not by moving among its unders
@@ -456,6 +481,7 @@ def gen_case(rng, tier):
         f = 0
         while f is not None:
             frames[f]["guard"] = []
+            frames[f]["gneeds"] = []
             unders = [j for j in range(nfr) if frames[j].get("over") == names[f]]
             f = unders[0] if unders else None
     dens = rng.choice([0.15, 0.35, 0.6])
@@ -472,6 +498,8 @@ def gen_malformed(rng, tier):
         t["far"] = "=Zed"
     elif r == 1 and t["needs"]:
         t["needs"][0]["cl"] = "=Zed"
+    elif r == 1:
+        c["frames"][-1].setdefault("gneeds", []).append({"k": "u", "neg": 0, "s": 0, "cl": "=Zed", "by": ""})
     else:
         c["frames"][-1]["trans"].append({"far": "next", "needs": []})
     return c
@@ -486,7 +514,8 @@ class CHECK(core.Check):
     N_SEARCH = 1500
     RULE = ("programs: 1-2 shares (single 'value' field or fields a,b; all initialised), one reader framer of 1-5 frames (half of the programs nest them with `in`; "
             "a third of the later frames with 1-2 entry needs `let me if [not] field in share` on the same shares the "
-            "writers flip) with enter/recur/exit writes and 1-3 transitions each guarded by 0-2 marker needs (updated/changed, "
+            "writers flip; 30% of the later frames also with 1-2 MARKER conditions as entry needs `let me if [not] share is "
+            "updated|changed [in frame ..] [by ..]`, half of them sharing the Mark of an earlier transition need) with enter/recur/exit writes and 1-3 transitions each guarded by 0-2 marker needs (updated/changed, "
             "optional not, optional 'in frame [me|name]', optional 'by marker' incl. a marker equal to a frame name), "
             "a writer framer before and one after the reader in the tick order with random writes per tick (put = "
             "stamped update, same or different value; Share.change = unstamped, may add a field), 3-12 ticks, tick "
@@ -498,8 +527,9 @@ class CHECK(core.Check):
                "time is modelled by the tick index: the code only compares stamps copied from store.stamp",
                "literal conversion of the FloScript values (C17), Data/odict field storage (C19), the frame machinery "
                "outside a flat single framer (C05-C08)"]
-    PARTIAL = ["model covers one reader framer with nested frames (outline, ExEn; no auxiliaries, no conditional aux tracts, "
-               "no marker needs in beacts); NaN field values are outside PyVal"]
+    PARTIAL = ["model covers one reader framer with nested frames (outline, ExEn) and marker needs both on transitions and "
+               "as entry needs of frames; no auxiliaries, no marker needs on conditional-aux (suspender) acts, no entry "
+               "needs on the framer's first outline; NaN field values are outside PyVal"]
     TECHNIQUE = "Lean 4 theorems over all histories (induction on event lists) + differential correspondence on generated FloScript programs"
     LEVEL_TEXT = ("Full proof on the model, history form, all histories: C20_updated_iff ('is updated' after any time-ordered "
                   "history of updates / entry resets / taken-transition resets is true exactly when some update is at or after "
@@ -514,13 +544,18 @@ class CHECK(core.Check):
                   "entry - `let me if` false - runs no marker act and changes no Mark: resets happen only on TAKEN "
                   "transitions); C20_shared_by_marker, C20_default_marker_key; and the placement done by NeedMarker._resolve: C20_enact_placement "
                   "(enact markers of a frame = the requests of the needs naming it, no duplicates), C20_tract_placement, "
-                  "C20_fire_markers. No _partial theorem. The model is tied to the code by building and running generated "
+                  "C20_fire_markers. Marker conditions used as ENTRY needs (beacts): C20_entry_need_has_no_tract (no transition "
+                  "carries their tract marker, so nothing is ever reset for them 'on a taken transition'), "
+                  "C20_entry_need_without_clause_never_arms (without an `in frame` clause no marker act exists for them at all), "
+                  "C20_entry_needs_all_hold (an admitted entry had every marker entry need true in the decision world; with "
+                  "C20_refused_transition_keeps_mark a refused entry leaves every Mark as armed); C20_enact_placement and "
+                  "C20_tract_placement range over transition and entry needs alike. No _partial theorem. The model is tied to the code by building and running generated "
                   "FloScript programs (writers before and after the reader) with the real Builder and Skedder.")
     LEVEL_NOTE = ("Trusted: Lean kernel; axioms propext, Classical.choice, Quot.sound; the hand transcription of needing.py "
                   "(NeedUpdate, NeedChange, NeedMarker._resolve), acting.py (MarkerUpdate, MarkerChange, Transiter.action "
                   "order) and storing.py (Mark, Share.update/change) validated only by the correspondence runs; time as tick "
-                  "index; the model has one flat reader framer: nested frames, auxiliaries, conditional-aux tracts, marker "
-                  "needs used as entry needs (their tract marker never runs) and NaN values are not modelled.")
+                  "index; the model has one reader framer (nested frames, transition and entry marker needs): auxiliaries, "
+                  "marker needs on conditional-aux (suspender) acts, entry needs on the first outline and NaN values are not modelled.")
 
     def generate(self, rng, n, tier):
         for i in range(n):
@@ -570,9 +605,10 @@ class CHECK(core.Check):
         shared = any(nd["by"] for f in case["frames"] for t in f["trans"] for nd in t["needs"])
         named = any(nd["cl"] != "-" for f in case["frames"] for t in f["trans"] for nd in t["needs"])
         guarded = any(f.get("guard") for f in case["frames"])
+        eneed = any(f.get("gneeds") for f in case["frames"])
         nested = any(f.get("over") for f in case["frames"])
-        return "%s%s%s%s%s" % (k, ",by" if shared else "", ",in-frame" if named else "", ",entry-guard" if guarded else "",
-                               ",nested" if nested else "")
+        return "%s%s%s%s%s%s" % (k, ",by" if shared else "", ",in-frame" if named else "", ",entry-guard" if guarded else "",
+                                 ",entry-marker-need" if eneed else "", ",nested" if nested else "")
 
     def shrink_candidates(self, case):
         def clone():
@@ -589,6 +625,8 @@ class CHECK(core.Check):
                 c = clone(); c["frames"][fi]["over"] = None; yield c
             for j in range(len(f.get("guard", []))):
                 c = clone(); del c["frames"][fi]["guard"][j]; yield c
+            for j in range(len(f.get("gneeds", []))):
+                c = clone(); del c["frames"][fi]["gneeds"][j]; yield c
             for ctx in ("enter", "recur", "exit"):
                 for j in range(len(f[ctx])):
                     c = clone(); del c["frames"][fi][ctx][j]; yield c
@@ -683,6 +721,25 @@ def exhaustive_cases(tier):
                              "trans": ([tz] if home == "A" else []) + [{"far": "=B", "needs": []}]},
                             {"name": "B", "over": "O", "guard": [], "enter": [], "recur": [], "exit": [], "trans": [{"far": "=A", "needs": []}]},
                             {"name": "Z", "guard": [], "enter": [], "recur": [], "exit": [], "trans": [{"far": "=O", "needs": []}]}]
+                        out.append({"period": "0.125", "inits": [[["value", ["I", 0]]]], "frames": frames, "ticks": ticks,
+                                    "origin": "exhaustive"})
+    # marker condition as ENTRY need of B (`let me if .s0 is updated|changed [in frame ...] [by m1]`), A hands over to B
+    # every tick (or by the same condition sharing the Mark), B returns every tick: the entry need is armed only by
+    # entries of the frame it names, a refused attempt arms nothing
+    for k in kinds:
+        for cl in clauses:
+            for by in bys:
+                for fwd in ("go", "need"):
+                    for combo in [()] + [(p_,) for p_ in places] + (list(itertools.combinations(places, 2)) if tier == "thorough" else []):
+                        ticks = [{"wb": [], "wa": []} for _ in range(nt + 1)]
+                        for n_, (i_, sl) in enumerate(combo):
+                            ticks[i_][sl].append(["P", 0, [["value", ["I", n_ + 1]]]])
+                        nd = {"k": k, "neg": 0, "s": 0, "cl": cl, "by": by}
+                        frames = [
+                            {"name": "A", "guard": [], "gneeds": [], "enter": [], "recur": [], "exit": [],
+                             "trans": [{"far": "=B", "needs": [] if fwd == "go" else [dict(nd, cl="-", by=by or "B")]}]},
+                            {"name": "B", "guard": [], "gneeds": [nd], "enter": [], "recur": [], "exit": [],
+                             "trans": [{"far": "=A", "needs": []}]}]
                         out.append({"period": "0.125", "inits": [[["value", ["I", 0]]]], "frames": frames, "ticks": ticks,
                                     "origin": "exhaustive"})
     return out
